@@ -308,8 +308,13 @@ func Recover(dir string, keys [][]byte) (res string) {
 		// exhaust the descriptor table of the harness process.
 		failedOpens++
 		if failedOpens%100 == 0 {
-			runtime.GC()
-			time.Sleep(2 * time.Millisecond)
+			for i := 0; i < 400; i++ {
+				runtime.GC()
+				if es, err := os.ReadDir("/proc/self/fd"); err != nil || len(es) < 300 {
+					break
+				}
+				time.Sleep(5 * time.Millisecond)
+			}
 		}
 		return "error"
 	}
